@@ -68,7 +68,7 @@ func mineFor(focusName string) func(string) bool {
 			return strings.HasPrefix(sig, "ack:") || strings.HasPrefix(sig, "truncate:") || strings.HasPrefix(sig, "attach:") ||
 				(strings.HasPrefix(sig, "restart:") && !strings.HasPrefix(sig, "restart:term-")) || strings.HasPrefix(sig, "apply:")
 		}
-		return strings.HasPrefix(sig, "fenced:") || strings.HasPrefix(sig, "newterm:") || strings.HasPrefix(sig, "restart:term-")
+		return strings.HasPrefix(sig, "fenced:") || strings.HasPrefix(sig, "fence:") || strings.HasPrefix(sig, "newterm:") || strings.HasPrefix(sig, "restart:term-")
 	}
 }
 
